@@ -324,14 +324,7 @@ func c12Reencode(p *Prog, r *Report, or *overrideRoles, rule string) {
 			// the converting codec is the connection's own (the one the body was decoded with: it
 			// carries the compressor the frame's flags demand); any other codec fails on compressed
 			// frames and the request goes out unmodified
-			okCodec := false
-			for _, o := range origins(cm.Value) {
-				if f, _ := loadedField(o); f != nil && f.Name() == "codec" && namedOf(f.Type()) != nil {
-					okCodec = true
-				} else if f != nil && f == p.FieldOpt("proxy", p.proxyClientType().Obj().Name(), "codec") {
-					okCodec = true
-				}
-			}
+			okCodec := clientCodecRoles(p).isValue(cm.Value)
 			if !okCodec {
 				bad = append(bad, p.Pos(c.Pos())+": the frame is converted with a codec other than the client connection's own ("+valDesc(cm.Value)+"): a frame whose flags ask for that connection's compression cannot be converted and is forwarded unmodified")
 			}
